@@ -191,7 +191,7 @@ PROPS = {
     "C11": {
         "property_module": "AutosarVerif.Properties.C11",
         "modules": ["AutosarVerif.Properties.C11"],
-        "closure": ['AutosarVerif.Properties.C11', 'AutosarVerif.Lemmas.WorldOps', 'AutosarVerif.Lemmas.FileOps', 'AutosarVerif.Lemmas.Compat'],
+        "closure": ['AutosarVerif.Properties.C11', 'AutosarVerif.Lemmas.WorldOps', 'AutosarVerif.Lemmas.FileOps', 'AutosarVerif.Lemmas.Compat', 'AutosarVerif.Lemmas.StepFrame', 'AutosarVerif.Lemmas.Reachable'],
         "scenario": "world",
         "scenario_args": ['--prop', 'C11'],
         "extra_scenarios": [("merge", [])],
